@@ -2,6 +2,7 @@ import EdpVerif.Generated.MiscC18
 import EdpVerif.Generated.MiscState
 import EdpVerif.Lemmas.ProcsLate
 import EdpVerif.Lemmas.Behaviours
+import EdpVerif.Lemmas.ProcsK
 /-
 C18 — local processes: ordered exactly-once delivery, exit notices, name lifecycle.
 Property theorems only; the model is EdpVerif/Impl/Procs.lean (small-step semantics of the registry, the mailboxes, the
@@ -869,5 +870,141 @@ theorem C18_state_is_the_sources_state :
       ["handlers:HashMap<String,HandlerEntry>", "notify_tag:Atom", "sync_notify_tag:Atom", "call_tag:Atom",
        "which_handlers_tag:Atom", "registry:Arc<ProcessRegistry>"]
     ∧ Edp.Gen.PROCESS_WIDE_STATE = [] := by decide
+
+end Edp.Props.C18
+
+namespace Edp.Props.C18
+open Edp Edp.Impl Edp.Impl.Procs Edp.Impl.ProcsK
+
+/-! ## F. bounded mailboxes: a full mailbox delays, it never drops
+
+A mailbox is a bounded channel (`Mailbox::new`: `mpsc::channel(DEFAULT_MAILBOX_CAPACITY)`). Everything above is proved for
+EVERY capacity and EVERY schedule of the model in which a mailbox send WAITS while the target is full — those schedules
+include the ones in which a process does not take messages for as long as the schedule likes. That the code really uses the
+waiting form at every place that puts a `Message` into a mailbox is a fact about the source: it is regenerated on every run
+(`Generated/MiscMailbox.lean`) and the model's sending steps are given the form as a parameter (`Impl/ProcsK.lean`). -/
+
+/-- **capacity and send forms are the source's**: `Node::spawn` hands every process `Mailbox::new()`, a channel of
+`DEFAULT_MAILBOX_CAPACITY` (> 0) messages; crates/edp_node/src builds a `Message` in thirteen places, every one as the argument
+of `ProcessHandle::send(..).await` (none bound to a name and handed to something else); `ProcessHandle::send` is the only
+method of the handle that touches `mailbox_sender`, and it is `mailbox_sender.send(msg).await` — the form that waits for
+room. Hence every sending step of the model (`srcForms`) and every reply of the behaviours has the waiting form. Changing
+one site to `try_send` / `send_timeout` / a new method of the handle changes a table and breaks this. -/
+theorem C18_mailbox_capacity_and_send_forms_are_the_sources :
+    0 < Gen.MAILBOX_DEFAULT_CAPACITY ∧ Gen.MAILBOX_NEW_CHANNEL_ARG = "DEFAULT_MAILBOX_CAPACITY" ∧
+    Gen.NODE_SPAWN_MAILBOX = "Mailbox::new()" ∧
+    Gen.PROCESS_HANDLE_SENDER_METHODS = ["send"] ∧ Chan.handleSendForm = .await ∧
+    Gen.MAILBOX_CHANNEL_OPS.map (fun e => (e.1, e.2.1, e.2.2.1)) =
+      [("mailbox.rs", "send", "self.sender"), ("process.rs", "send", "self.mailbox_sender"),
+       ("node.rs", "route_message", "sender")] ∧
+    Gen.MAILBOX_DELIVERIES.length = Gen.MAILBOX_MESSAGE_CONSTRUCTIONS ∧
+    (∀ e ∈ Gen.MAILBOX_DELIVERIES, Chan.deliveryForm e = .await) ∧
+    Gen.MAILBOX_DELIVERIES.map (fun e => (e.1, e.2.1, e.2.2.1)) =
+      [("process.rs", "propagate_exit_signals", "Exit"), ("process.rs", "propagate_exit_signals", "MonitorExit"),
+       ("node.rs", "route_message", "Regular"), ("node.rs", "route_message", "Regular"),
+       ("node.rs", "route_message", "Exit"), ("node.rs", "route_message", "MonitorExit"),
+       ("node.rs", "send_local", "Regular"), ("node.rs", "signal_noproc_exit", "Exit"),
+       ("node.rs", "monitor", "MonitorExit"), ("gen_server.rs", "handle_gen_call", "Regular"),
+       ("gen_event.rs", "handle_message", "Regular"), ("gen_event.rs", "handle_message", "Regular"),
+       ("gen_event.rs", "handle_message", "Regular")] ∧
+    (∀ s, srcForms s = .await) ∧ srcReplyForms = [.await, .await] := by
+  refine ⟨by decide, by decide, by decide, by decide, by decide, by decide, by decide, by decide, by decide, ?_, by decide⟩
+  intro s
+  cases s <;> decide
+
+example : Chan.Form.ofSource "try_send" false = .trySend ∧ Chan.Form.ofSource "send" false = .other ∧
+    Chan.deliveryForm ("node.rs", "route_message", "Exit", "signal", false, "propagated") = .other := by decide
+
+/-- **with the source's forms nothing is ever dropped, and the model above is the model of the code**: for every capacity
+and every schedule — full mailboxes and processes that do not take messages included — the run of the form-parametrised model
+with the forms read from the source is the run of `Impl/Procs.lean`, and no send has given up on a message (`dropped = []`).
+So `C18_fifo_exactly_once`, `C18_exit_notice_for_every_link`, `C18_monitor_notice_for_every_monitor` … speak about the code's
+choice of channel operation, for the capacity of the source as for every other. -/
+theorem C18_full_mailbox_never_drops (cap : Nat) (evs : List Ev) :
+    runK srcForms ⟨St.init cap, []⟩ evs = ⟨run (St.init cap) evs, []⟩ ∧
+    (runK srcForms ⟨St.init Gen.MAILBOX_DEFAULT_CAPACITY, []⟩ evs).dropped = [] := by
+  have h := C18_mailbox_capacity_and_send_forms_are_the_sources.2.2.2.2.2.2.2.2.2.1
+  exact ⟨runK_await srcForms h evs _, by rw [runK_await srcForms h evs _]⟩
+
+set_option maxRecDepth 20000 in
+/-- the schedule of the next theorem under the source's forms: the exit notice waits for room and is delivered, once -/
+example :
+    let evs := callEvs 0 (.spawn true) ++ callEvs 0 (.spawn true) ++ callEvs 0 (.link 0 1) ++ callEvs 0 (.send 1 5 false) ++
+      callEvs 0 (.send 0 7 true) ++ List.replicate 9 (.proc 0 0) ++ [.proc 1 0] ++ List.replicate 9 (.proc 0 0)
+    let k := runK srcForms ⟨St.init 1, []⟩ evs
+    (k.st.procs 0).pc = .dead ∧ k.st.timesAccepted 1 (.exit 0) = 1 ∧ k.dropped = [] := by decide
+
+set_option maxRecDepth 20000 in
+/-- **the parameter matters** (what a `try_send` at ONE site would do): with the exit signals to linked processes sent by a
+form that gives up, and every other site as in the source, there is a schedule after which process 1 — linked to 0 when 0
+read its links, in its loop, in the registry the whole time, its mailbox full at the wrong moment — has not and will never
+get an exit notice about 0 of either kind: the conclusion of `C18_exit_notice_for_every_link` fails. -/
+theorem C18_a_send_that_gives_up_loses_the_exit_notice :
+    ∃ (F : Site → Chan.Form) (evs : List Ev), (∀ s, s ≠ .exitLinks → F s = srcForms s) ∧
+      let k := runK F ⟨St.init 1, []⟩ evs
+      1 ∈ (k.st.procs 0).snapL ∧ 1 ∈ (k.st.procs 0).liveL ∧ (k.st.procs 0).pc = .dead ∧
+      (k.st.procs 1).pc = .recv ∧ 1 ∈ k.st.byPid ∧
+      k.st.timesAccepted 1 (.exit 0) + k.st.timesAccepted 1 (.exitNoproc 0) = 0 ∧ k.dropped = [(1, .exit 0)] :=
+  ⟨fun s => if s = .exitLinks then .trySend else srcForms s,
+    callEvs 0 (.spawn true) ++ callEvs 0 (.spawn true) ++ callEvs 0 (.link 0 1) ++ callEvs 0 (.send 1 5 false) ++
+      callEvs 0 (.send 0 7 true) ++ List.replicate 9 (.proc 0 0) ++ [.proc 1 0] ++ List.replicate 9 (.proc 0 0),
+    fun s hs => by simp [hs], by decide⟩
+
+/-- **back-pressure, step by step** (any state, any capacity): a step that sends into the mailbox of `p` — `send` / `send_to_name`
+(`sendPut`), the `noproc` notices of `link` / `monitor` (`lkB`, `lkD`, `monN2`), the exit signals of a terminating process
+(`sendL`, `sendM`) — is NOT enabled while `p`'s receiver is there and its mailbox is full: the sender is suspended, nothing
+changes, nothing is lost; with room the client's send is enabled and appends exactly one message to `p`'s queue and to what
+`p` accepted, touching no other mailbox; and the receiver's own step is always enabled while it is in its loop with a
+non-empty queue, takes the OLDEST message, and leaves every other task where it was — after it a sender that was
+suspended on a mailbox filled exactly to capacity has room. -/
+theorem C18_full_mailbox_suspends_the_sender_until_the_receiver_takes_one (st : St) (p : Pid)
+    (hc : (st.procs p).closed = false) :
+    (∀ t, cTarget (st.cpc t) = some p → st.cap ≤ (st.procs p).mailbox.length → stepEv st (.cont t) = none) ∧
+    (∀ q i, pTarget (st.procs q).pc = some p → st.cap ≤ (st.procs p).mailbox.length → stepEv st (.proc q i) = none) ∧
+    (∀ t, cTarget (st.cpc t) = some p → (st.procs p).mailbox.length < st.cap →
+      ∃ st' m, stepEv st (.cont t) = some st' ∧ (st'.procs p).mailbox = (st.procs p).mailbox ++ [m] ∧
+        (st'.procs p).accepted.map (·.2) = (st.procs p).accepted.map (·.2) ++ [m] ∧
+        ∀ q, q ≠ p → (st'.procs q).mailbox = (st.procs q).mailbox) ∧
+    (∀ i m rest, (st.procs p).pc = .recv → (st.procs p).mailbox = m :: rest →
+      ∃ st', stepEv st (.proc p i) = some st' ∧ (st'.procs p).mailbox = rest ∧ (st'.procs p).closed = false ∧
+        st'.cap = st.cap ∧ st'.cpc = st.cpc ∧ (∀ q, q ≠ p → st'.procs q = st.procs q) ∧
+        ((st.procs p).mailbox.length = st.cap → (st'.procs p).mailbox.length < st'.cap)) := by
+  refine ⟨fun t ht hf => clientStep_full_blocks st t p ht hc hf, fun q i ht hf => procStep_full_blocks st q i p ht hc hf,
+    fun t ht hf => clientStep_room_sends st t p ht hc hf, ?_⟩
+  intro i m rest hp hm
+  obtain ⟨st', h1, h2, h3, h4, h5, h6⟩ := procStep_recv_makes_room st p i m rest hp hm
+  refine ⟨st', h1, h2, by rw [h3, hc], h4, h5, h6, ?_⟩
+  intro hl
+  rw [h2, h4, ← hl, hm]
+  simp
+
+example : ∃ st : St, ∃ t, cTarget (st.cpc t) = some 0 ∧ (st.procs 0).closed = false ∧ st.cap ≤ (st.procs 0).mailbox.length :=
+  ⟨run (St.init 1) (callEvs 0 (.spawn true) ++ callEvs 0 (.send 0 5 false) ++ [.start 0 (.send 0 6 false), .cont 0]), 0,
+    by decide⟩
+
+/-- **a reply waits for a caller that is behind**: the reply sends of `GenServerProcess::handle_gen_call` and of the three
+reply sites of `GenEventManager::handle_message` have the waiting form in the source; with that form a caller whose mailbox
+is full is answered like any live caller (the behaviour process waits for room): what is sent is `Beh.reply`, the function
+the behaviour theorems (`C18_gen_server_answers_exactly_what_is_owed` …) are about, whatever mailboxes are full. A form
+that gives up loses exactly the replies to callers that are behind. -/
+theorem C18_reply_waits_for_a_full_caller (full : PidF → Bool) (env : Beh.Env) (to : PidF) (body : Term) :
+    (∀ f ∈ srcReplyForms, replyK f full env to body = Beh.reply env to body) ∧
+    (∀ f, f.givesUp = true → full to = true → replyK f full env to body = []) := by
+  constructor
+  · intro f hf
+    have h : f = .await := by
+      have := C18_mailbox_capacity_and_send_forms_are_the_sources.2.2.2.2.2.2.2.2.2.2
+      rw [this] at hf
+      simpa using hf
+    subst h
+    unfold replyK Beh.reply
+    cases env to <;> simp [Chan.Form.givesUp]
+  · intro f hf hfull
+    unfold replyK
+    cases env to <;> simp [hf, hfull]
+
+example : replyK .trySend (fun _ => true) (fun _ => .live) ⟨[110], 1, 0, 1, none⟩ (.int 7) = [] ∧
+    Beh.reply (fun _ => .live) ⟨[110], 1, 0, 1, none⟩ (.int 7) = [.send ⟨[110], 1, 0, 1, none⟩ (.int 7)] := by
+  constructor <;> rfl
 
 end Edp.Props.C18
